@@ -87,8 +87,8 @@ PROPS = {
     "C06": {
         "units": ["U3", "U4"],
         "level": "proof",
-        "witness": [(r".", "session")],
-        "sweep": ["session"],
+        "witness": [(r"ping|status", "order"), (r".", "session")],
+        "sweep": ["session", "order"],
         "explanation": "The reference automaton is the protocol grammar of the property: every event trace listen can produce (for all client bytes, "
                        "adapter results, timer firings) must be accepted; any packet sent out of order, a reply after an unexpected id, or an event "
                        "after Transfer/Disconnect drives it to Bad.",
